@@ -612,3 +612,11 @@ package diff
 //@ requires sd != nil
 //@ loop 2 step len(sd.Diffs) == old(len(sd.Diffs))+1 && sd.Diffs[len(sd.Diffs)-1].Code == AddedTag
 //@ loop 3 step len(sd.Diffs) == old(len(sd.Diffs))+1 && sd.Diffs[len(sd.Diffs)-1].Code == DeletedTag
+
+//@ func (*SpecAnalyser).AnalyseDefinitions
+//@ props C12 C14
+//@ requires sd != nil
+//@ loop 2 step !vs_has(alreadyReferenced, name1) && !vs_has(sd.Definitions2, name1) ==> len(sd.Diffs) == old(len(sd.Diffs))+1 && sd.Diffs[len(sd.Diffs)-1].Code == DeletedDefinition
+//@ loop 2 step len(sd.Diffs) >= old(len(sd.Diffs))
+//@ loop 3 step vs_has(sd.Definitions1, name2) ==> len(sd.Diffs) == old(len(sd.Diffs))
+//@ loop 3 step !vs_has(sd.Definitions1, name2) ==> len(sd.Diffs) == old(len(sd.Diffs))+1 && sd.Diffs[len(sd.Diffs)-1].Code == AddedDefinition
